@@ -37,7 +37,7 @@ var storageErrExceptions = []errException{
 	{"kv.mergeRoots", "Clone", []an.ErrVerdict{an.ErrSwallowed}, "merge-on-open skips a version it cannot fold because an object answers a well-formed NoSuchKey (vacuumed), only when listing (never for an explicit version set). Until repair c76a515 this entry demanded only the skipUnreadable guard: a transport error then left a committed version out of an open that reported success", []string{"nosuchkey", "param:skipUnreadable"}},
 	{"kv.loadRootFromAny", "loadRoot", []an.ErrVerdict{an.ErrSwallowed}, "a well-formed NoSuchKey in one prefix means: try the next prefix", []string{"nosuchkey"}},
 	{"(*kv.DB).getHistoricRootsAndNodes", "Load", []an.ErrVerdict{an.ErrSwallowed}, "vacuum candidate discovery skips what it cannot read: fewer deletions, the safe direction", nil},
-	{"(*kv.DB).getHistoricRootsAndNodes", "DiffLinks", []an.ErrVerdict{an.ErrSwallowed, an.ErrDropped}, "vacuum candidate discovery skips what it cannot diff: fewer deletions, the safe direction", nil},
+	{"(*kv.DB).getHistoricRootsAndNodes", "DiffLinks", []an.ErrVerdict{an.ErrSwallowed, an.ErrDropped}, "vacuum candidate discovery skips what it cannot diff: fewer deletions, the safe direction. Only the pairwise diffs between a retired version and its successors: the walk over the handle's own (retained) tree takes nodes OFF the deletion list, so an error there means MORE deletions and is not covered (until round 5 this entry matched every DiffLinks call of the function)", []string{"recv-not-live"}},
 	{"kv.DeleteHistoricVersions", "loadRoot", []an.ErrVerdict{an.ErrSwallowed, an.ErrDropped}, "optional clean-up of an empty current version; on error it is simply kept", nil},
 	{"(*sqlite.VacuumCursor).Filter", "Vacuum", []an.ErrVerdict{an.ErrStored}, "reported to the user as the vacuum_error column by design", nil},
 }
@@ -149,6 +149,13 @@ func errorsRule(c *Ctx, rule string, keep func(pos string) bool) {
 				// the site may have moved into a helper split out of the named function
 				anchorFn := funcByDisplayName(c, ex.Fn)
 				if anchorFn == nil || anchorFn == s.Fn || !c.Scope(anchorFn).Contains(s.Fn) {
+					continue
+				}
+			}
+			if hasGuard(ex.Guards, "recv-not-live") {
+				rv := an.RecvValue(s.Call)
+				crdtF := an.LookupField(c.P, "kv", "DB", "crdt")
+				if rv != nil && crdtF != nil && an.HasField(rv, crdtF) {
 					continue
 				}
 			}
@@ -514,4 +521,14 @@ func funcByDisplayName(c *Ctx, name string) *ssa.Function {
 		}
 	}
 	return nil
+}
+
+
+func hasGuard(gs []string, g string) bool {
+	for _, x := range gs {
+		if x == g {
+			return true
+		}
+	}
+	return false
 }
